@@ -81,6 +81,8 @@ def probe_element(rng, k, i):
             lvl, numid = rng.choice([0, 1, 2]), rng.choice(["1", "2"])
             ppr.append(X("w:numPr", {}, [X("w:ilvl", {"w:val": str(lvl)}), X("w:numId", {"w:val": numid})]))
             el["numbering"] = (str(lvl), {"1": [False, False, True], "2": [True, True, False]}[numid][lvl])
+        elif sid == "ListParagraph":
+            el["numbering"] = ("0", True)      # numbering through the paragraph style (w:pStyle in abstractNum 1, level 0, decimal)
         return X("w:p", {}, ([X("w:pPr", {}, ppr)] if ppr else []) + [run]), el
     if k == "r":
         sid, sname = rng.choice(RSTYLES + [(None, None)])
